@@ -211,6 +211,10 @@ def run(ctx):
         if m.group(1) != "true" or m.group(2) != "ok" or m.group(3) != "true":
             # the emitted trie is not exact for this dictionary: find the misdispatched name on the real parser below
             fails.append("name set %d (%s parser): generated trie fails validation snd=%s cmp=%s; dictionary %s" % (k, kind, m.group(1), m.group(2), dct))
+        elif m.group(4) != "same":
+            # valid for quoted names, but not the tree the generator model (TrieGen.lean) builds: what the emitted code does for unquoted names
+            # (other terminators than the quote) is only known through that model
+            tie_breaks.append("name set %d (%s parser): the emitted decision tree differs from the generator model (gen=%s); dictionary %s" % (k, kind, m.group(4), dct))
         res = m.group(5).split(";")
         # model evaluation of the extracted tree must equal the specification on every probe
         for p, rr in zip(probes, res):
